@@ -11,6 +11,12 @@ var extras = map[string]ruleFn{
 	// resolved tag value; the processors that populate are already active when a later post-processor is created
 	"C02": func(c *core.Ctx, r *core.Report) {
 		propsStageRules(c, r, "C02.R11")
+		// "distinct components": two components registered under different names have two definitions (with a shared one
+		// the second is never created, and an edge to it comes back to the other - or to the holder itself)
+		definitionRegistryTables(c, r, "", "C02.R13")
+		// "every required injection point populated by its target": a point wired by type is offered every component
+		// of the type (its target among them), whatever was processed before it
+		depTableRules(c, r, "C02.R14", "by-type-pointer", "by-type-interface", "no-error", "independent")
 		if l := findLifecycle(c, r, "C02.R12"); l != nil {
 			populateRules(c, r, l, func(row string) string {
 				if row == "from-accessor" || row == "error" {
@@ -63,6 +69,11 @@ var extras = map[string]ruleFn{
 		propsStageRules(c, r, "C07.R9")
 		// "receives exactly the component registered under that name": also when an earlier point of the holder missed
 		depTableRules(c, r, "C07.R10", "independent")
+		// "exactly the component registered under that name": in the container of the holder, not in another one
+		perContainerProcessorRules(c, r, "C07.R12")
+		// "fails with an error when the point is required and leaves the field untouched when it is optional":
+		// whatever the other points of the same holder do
+		furtherRules(c, r, "C07.R13", "required-error", "optional-cleared")
 	},
 	// "required=false points that cannot be satisfied leave their field at its zero value"
 	"C09": func(c *core.Ctx, r *core.Report) {
@@ -80,7 +91,13 @@ var extras = map[string]ruleFn{
 		furtherRules(c, r, "C09.E3", "optional-cleared", "required-error")
 		writerRules(c, r, "C09.E3")
 		// "an initialization callback reports an error -> Run returns an error": whatever the callback returns beside it
-		initErrorRules(c, r, "C09.E5")
+		// (and every initialization callback the component declares is invoked, so that it can report one)
+		initErrorRules(c, r, "C09.E5", "sequence")
+		// "of an eagerly created component": which user components are eager does not depend on the base they embed
+		lazyBaseRules(c, r, "C09.E8")
+		// "does not panic": what a point wired by type is offered are the registry's components of exactly that type
+		// (anything else makes the reflect write of the injection panic)
+		depTableRules(c, r, "C09.E9", "by-type-pointer", "by-type-interface", "no-error")
 	},
 	// "only components whose declared qualifier is in the requested set": qualifier texts are compared exactly
 	// "a unique component without a custom name wins": which components count as custom-named
@@ -101,6 +118,11 @@ var extras = map[string]ruleFn{
 		newMetaRules(c, r, "C10.R8")
 		// "which component it receives": every component-typed point is narrowed, whatever tag collected its candidates
 		furtherRules(c, r, "C10.R9", "narrowed-once")
+		// user post-processors are created with exactly the built-in processors ordered before them active: the
+		// positions decide whether their own points are narrowed or take the first candidate in enumeration order
+		processorOrderRules(c, r, "C10.R10")
+		// the property list arrives in map order: no processor hands anything from one property to the next
+		noCarriedStateRules(c, r, "C10.R11")
 	},
 	// "receives ... the tag's value and arguments"; every processor sees every property
 	"C11": func(c *core.Ctx, r *core.Report) {
@@ -109,6 +131,8 @@ var extras = map[string]ruleFn{
 		tagRules(c, r, "C11.R7", "value", "arguments")
 		propsStageRules(c, r, "C11.R8")
 		propertyStoreRules(c, r, "C11.R9")
+		// "receives exactly the fields carrying its tag": whatever an earlier processor did to the list it was handed
+		ownListRules(c, r, "C11.R11")
 	},
 	// "every registered runner is invoked": the runner collection is complete
 	"C13": func(c *core.Ctx, r *core.Report) {
@@ -120,6 +144,8 @@ var extras = map[string]ruleFn{
 		propsStageRules(c, r, "C13.R6")
 		tagScanRules(c, r, "C13.R6")
 		collectionRules(c, r, "C13.R6", findLifecycle(c, r, "C13.R6"))
+		// "every registered application runner": each registered name keeps a definition of its own, so it is created
+		definitionRegistryTables(c, r, "", "C13.R10")
 	},
 	// "every registered closer is closed exactly once": the closer collection is complete and duplicate-free
 	"C14": func(c *core.Ctx, r *core.Report) {
@@ -196,6 +222,9 @@ var extras = map[string]ruleFn{
 		lookupRules(c, r, "C01.R8")
 		// "every lookup of that component by name": one definition per name, found under that name only
 		definitionRegistryTables(c, r, "", "C01.R10")
+		// what is copied into the holders (the definition's Value) is the reflect value of the very object lookups
+		// return (its Raw): a definition describes one object
+		isSelfTable(c, r, "C01.R12")
 	},
 	"C06": func(c *core.Ctx, r *core.Report) {
 		// completeness: every processor that collects candidates runs for every holder, and every component has a definition
@@ -203,12 +232,17 @@ var extras = map[string]ruleFn{
 		propsStageRules(c, r, "C06.R8")
 		tagScanRules(c, r, "C06.R9")
 		fieldScanRules(c, r, "C06.R9")
+		// "receives every such component": every registered name has a definition of its own to be enumerated
+		definitionRegistryTables(c, r, "", "C06.R10")
 	},
 	"C12": func(c *core.Ctx, r *core.Report) {
 		markerTypeRules(c, r, "C12.R7")
 		// "appears exactly once": one registration per component, no candidate lost or doubled on the way to the list
 		registerRules(c, r, "C12.R6")
 		narrowRules(c, r, "C12.R6", "slice-exact", "no-panic")
+		// "the participants' callbacks are actually invoked": a dispatch loop behind a presence flag is entered
+		// whenever a processor it would call has been registered
+		refiled(c, r, "C12.R8", func(sub *core.Report) { c03Flags(c, sub) })
 	},
 	"C17": func(c *core.Ctx, r *core.Report) {
 		// "string values arrive unchanged": the file and raw loaders hand back exactly the bytes they were given
@@ -225,11 +259,18 @@ var extras = map[string]ruleFn{
 	// "never returns the half-built instance as if it had been created": an initialization that failed is a failed creation, every time
 	"C04": func(c *core.Ctx, r *core.Report) {
 		initErrorRules(c, r, "C04.R4")
+		// "the published instance is the only thing ever returned for that name": publication refuses a version other
+		// than the early reference already handed out by looking at who received it - every holder is on that record
+		injectRules(c, r, "C04.R5", "slice", "single")
 	},
 	"C20": func(c *core.Ctx, r *core.Report) {
 		// components of one type scanned concurrently share nothing: every component gets properties of its own
 		tagScanPerComponentRules(c, r, "C20.R10")
 		copyLockRules(c, r, "C20.R9")
 		globalAppendRules(c, r, "C20.R8")
+		// the loggers both phases write through concurrently are never modified in place
+		immutableLoggerRules(c, r, "C20.R11")
+		// the scanner goroutines of two components write two definitions: no two registered names share one
+		definitionRegistryTables(c, r, "", "C20.R12")
 	},
 }
